@@ -498,6 +498,10 @@ func doOp(db *gorm.DB, op Op) error {
 		return db.Create(&u).Error
 	case "create_value": // the record passed BY VALUE: hooks cannot be called on it
 		return db.Create(buildUser(op.Users[0])).Error
+	case "create_note": // a model without any hook method
+		return db.Create(&Note{UserID: op.Target, Text: op.Users[0].Name}).Error
+	case "create_note_value": // ... passed BY VALUE: nothing may be written (ErrInvalidValue)
+		return db.Create(Note{UserID: op.Target, Text: op.Users[0].Name}).Error
 	case "create_pet": // a record with a has-one held by value, polymorphic children, a default value
 		p := buildUser(UserSpec{Pets: []PetSpec{op.Pet}}).Pets[0]
 		p.UserID = op.Target
@@ -861,6 +865,9 @@ func (g *gen) input() Input {
 		op.Kind, op.Users = "create", []UserSpec{u}
 		if r.Chance(1, 12) {
 			op.Kind = "create_value"
+		} else if r.Chance(1, 12) {
+			op.Kind, op.Target = lib.Pick(r, []string{"create_note", "create_note_value"}), nu
+			op.Users = []UserSpec{{Name: g.name("n")}}
 		} else if nu > 0 && r.Chance(1, 12) {
 			op.Users[0].ID = uint(r.Range(1, int(nu))) // key already taken: the INSERT fails after the belongs-to rows were written
 		}
@@ -1023,19 +1030,11 @@ func hasAssoc(u UserSpec) bool {
 }
 
 const sigSaveTwoTx = "save-preset-key-missing-row-with-associations"
-const sigByValueSkipHooks = "create-by-value-without-hooks-panics"
 
 // sig: known-finding signature, from the input only: Save of a record whose preset primary key
 // matches no row (UPDATE affects nothing, then a second INSERT pipeline) and that carries
 // associations, with a fault (the fault decides nothing about the signature's shape).
 func sig(in Input) string {
-	if in.Op.Kind == "create_value" {
-		for _, o := range in.Op.Sess {
-			if o == "skiphooks" {
-				return sigByValueSkipHooks
-			}
-		}
-	}
 	nu, _, _, _, _, _ := seedCounts(in.Seed)
 	if in.Op.Kind == "save" && len(in.Op.Users) == 1 && in.Op.Users[0].ID > nu && hasAssoc(in.Op.Users[0]) &&
 		(in.DFault >= 0 || in.HFault >= 0) {
@@ -1069,10 +1068,6 @@ func main() {
 	// one operation: the fault-free run, then one run per driver operation and per hook invocation
 	addOp := func(kind string, in Input, onlyD, onlyH int) {
 		in.DFault, in.HFault = -1, -1
-		if kind != "corpus" && kind != "replay" && sig(in) == sigByValueSkipHooks {
-			out.Count("excluded_known_finding", sigByValueSkipHooks)
-			return
-		}
 		free, dumps := runOnce(in, nil)
 		if free.ErrK != "nil" {
 			// the operation fails by itself (empty slice, constraint ...): no model prediction, but the
@@ -1276,6 +1271,8 @@ func main() {
 			{Kind: "create", Users: []UserSpec{full}, Sess: []string{"skiphooks"}}, {Kind: "create_slice", Users: []UserSpec{small, full}, Sess: []string{"skiphooks", "ctx"}},
 			{Kind: "save", Users: []UserSpec{withID(full, 1)}, Sess: []string{"skiphooks"}}, {Kind: "updates", Target: 1, Users: []UserSpec{full}, Sess: []string{"skiphooks", "newdb"}},
 			{Kind: "delete", Users: []UserSpec{{ID: 1}}, Select: []string{"*"}, Sess: []string{"skiphooks"}}, {Kind: "create", Users: []UserSpec{full}, Sess: []string{"initialized", "queryfields"}},
+			{Kind: "create_value", Users: []UserSpec{small}, Sess: []string{"skiphooks"}}, {Kind: "create_value", Users: []UserSpec{plain}, Sess: []string{"skiphooks"}},
+			{Kind: "create_note", Target: 1, Users: []UserSpec{plain}}, {Kind: "create_note_value", Target: 1, Users: []UserSpec{plain}},
 			{Kind: "create_batches", Users: []UserSpec{small, small, small}, Batch: 2, Sess: []string{"skiphooks"}}, {Kind: "create", Users: []UserSpec{full}, Sess: []string{"logger", "nowfunc", "allowglobal", "unscopedprop"}},
 		}
 		for i, op := range menu {
@@ -1288,7 +1285,7 @@ func main() {
 			}
 			addOp("menu", in, -1, -1)
 		}
-		nops -= 55
+		nops -= 58
 		if nops < 20 {
 			nops = 20
 		}
